@@ -47,7 +47,9 @@ void COSdoReset(CO_SDO *srv, uint8_t num, CO_NODE *node)
     srvnum->Node         = node;
     srvnum->RxId         = CO_SDO_ID_OFF;
     srvnum->TxId         = CO_SDO_ID_OFF;
-    srvnum->Frm          = 0;
+    /* the frame reference stays: a reset may be requested while a
+     * request is served (the response is still to be written)
+     */
     srvnum->Obj          = 0;
     offset               = num * CO_SDO_BUF_BYTE;
     srvnum->Buf.Start    = &node->SdoBuf[offset];
